@@ -7,6 +7,7 @@ import (
 	"net"
 	"os"
 	"path/filepath"
+	"sort"
 	"sync"
 	"sync/atomic"
 	"time"
@@ -2142,6 +2143,32 @@ func scenStaleSuffixInstallCrash(e *engineA) error {
 	}
 	// the new leader commits fewer entries than the tail is long
 	n := 6 + e.rng.Intn(stale/2)
+	// aligned: its snapshot will end exactly where one of the old leader's
+	// segment files begins, and the old leader is killed when the files
+	// before that one are gone - the log that is left starts right behind
+	// the installed snapshot and belongs to the other history
+	var boundary uint64
+	aligned := e.rng.Intn(2) == 0
+	if aligned {
+		if li, ok := nl.info(false); ok {
+			var bs []uint64
+			files, _ := filepath.Glob(filepath.Join(l.dir, "log", "*.log"))
+			for _, f := range files {
+				var b uint64
+				if _, err := fmt.Sscanf(filepath.Base(f), "%d.log", &b); err == nil && b > li.LastLogIndex+3 {
+					bs = append(bs, b)
+				}
+			}
+			sort.Slice(bs, func(i, j int) bool { return bs[i] < bs[j] })
+			if len(bs) > 1 {
+				bs = bs[:len(bs)-1] // not the last file: something has to remain behind it
+			}
+			if len(bs) > 0 {
+				boundary = bs[e.rng.Intn(len(bs))]
+				n = int(boundary - li.LastLogIndex)
+			}
+		}
+	}
 	for i := 0; i < n; i++ {
 		if r := e.cl.fsmOpPad(1, nl, "update", pad); !r.ok {
 			break
@@ -2163,6 +2190,19 @@ func scenStaleSuffixInstallCrash(e *engineA) error {
 	occ := 1
 	if pt == "log.reset.each" {
 		occ = 1 + e.rng.Intn(3)
+	}
+	if boundary != 0 {
+		if si, ok := nl.info(false); ok && si.SnapshotIndex == boundary {
+			pt, occ = "log.reset.each", 0
+			files, _ := filepath.Glob(filepath.Join(l.dir, "log", "*.log"))
+			for _, f := range files {
+				var b uint64
+				if _, err := fmt.Sscanf(filepath.Base(f), "%d.log", &b); err == nil && b < boundary {
+					occ++
+				}
+			}
+			e.rc.emit(&ev.Rec{K: "fault", Op: "snapshot-ends-at-a-segment-boundary-of-the-stale-log", Nid: l.nid, Idx: boundary})
+		}
 	}
 	e.rc.emit(&ev.Rec{K: "fault", Op: "directed-crash at " + pt, Nid: l.nid, Note: fmt.Sprintf("occurrence %d", occ)})
 	e.pc.planCrash(l.dir, pt, occ)
